@@ -5,7 +5,7 @@ from .. import common, gen, pool, pipefam, readerfam
 RULE = ("histories of loads of the same result files through DensityData(...), verify_h5_cache and the two directory-level constructors: "
         "exhaustive sequences up to length 3 (quick: 2) over the four constructors x strand mixtures, plus histories whose first load is "
         "killed (forked child, os._exit) before the copy / mid-copy / after the copy / after j exchanged genes / before publishing, with "
-        "and without an HDF5 flush, or interrupted by an exception (Ctrl-C) at the j-th gene of the swap loop, or hit by ONE transient I/O error at the k-th dataset write of the exchange, followed by 1-2 loads; plus two loads of two different files of one directory interleaved (5 orders of their start / copy / publish steps) followed by loads of both; every completed load is compared column by column with the raw file and with "
+        "and without an HDF5 flush, or interrupted by an exception (Ctrl-C) at the j-th gene of the swap loop, or hit by ONE transient I/O error at the k-th dataset write of the exchange, followed by 1-2 loads (the exception-interrupted and the two-load histories also by a caller that hands the SAME GeneData object to every load); plus two loads of two different files of one directory interleaved (5 orders of their start / copy / publish steps) followed by loads of both; every completed load is compared column by column with the raw file and with "
         "the model; non-trivial = history with >= 2 loads or a crash, and a minus-strand gene; distinct = (case, history)")
 HOWS = ["ctor", "verify", "dir", "regex"]
 COQ_HOW = {"ctor": "ByCtor", "verify": "ByVerify", "dir": "ByVerify", "regex": "ByCtor"}
@@ -46,7 +46,12 @@ def run(chk):
         for h in histories(chk.tier, min(nminus, 3)):
             steps = [dict(s, chrom=chrom) if s.get("crash") is not None else s for s in h]
             sessions.append((c, steps))
-    reps = pool.run_requests([{"op": "reader.session", "case": c, "steps": steps} for c, steps in sessions], timeout=300)
+            # the same history by a caller that HOLDS its GeneData objects and hands the same object to every load (a retry after
+            # Ctrl-C or an I/O error in one interpreter session; a notebook cell run twice): interruptions by an exception, and
+            # the plain histories of two loads
+            if (steps[0].get("crash") or {}).get("mode") in ("raise", "eio") or (len(steps) == 2 and not any(s.get("crash") for s in steps) and "dir" not in [s["how"] for s in steps]):
+                sessions.append((c, [dict(s, same_gene_data_object=True) for s in steps]))
+    reps = pool.run_requests([{"op": "reader.session", "case": c, "steps": steps, "keep_gene_data": bool(steps[0].get("same_gene_data_object"))} for c, steps in sessions], timeout=300)
     exprs, meta = [], []
     for si, ((c, steps), rep) in enumerate(zip(sessions, reps)):
         if rep.get("ok") and rep["raw_genes"]:
@@ -76,6 +81,8 @@ def run(chk):
         has_crash = any(s.get("crash") is not None for s in steps)
         chk.case_seen([c["genes"], steps], (len(steps) >= 2) and any(g["strand"] == "-" for g in c["genes"]))
         chk.count("crash_history" if has_crash else "load_history_len%d" % len(steps))
+        if steps[0].get("same_gene_data_object"):
+            chk.count("caller_keeps_its_GeneData_objects")
         fails = []
         if not rep.get("ok"):
             fails.append({"kind": "session_failed", "exc": rep.get("exc"), "msg": rep.get("msg")})
@@ -148,7 +155,7 @@ def run(chk):
 
 
 def replay(chk, rp):
-    rep = pool.run_requests([{"op": "reader.session", "case": rp["case"], "steps": rp["history"]}], timeout=300)[0]
+    rep = pool.run_requests([{"op": "reader.session", "case": rp["case"], "steps": rp["history"], "keep_gene_data": bool(rp["history"] and rp["history"][0].get("same_gene_data_object"))}], timeout=300)[0]
     fails = []
     if not rep.get("ok"):
         fails.append({"kind": "session_failed", "msg": rep.get("msg")})
